@@ -29,6 +29,7 @@ class _State:
     n_mut = 0
     trace = None
     crash_at = None      # index (1-based) of mutating op before which to die
+    crash_after = None   # index of mutating op right AFTER which to die (user-space buffers are lost)
     interrupt = None     # (k, "before"|"after"): raise KeyboardInterrupt around mutating op k (SIGINT)
     faults = ()          # list of dicts {k:int|None, op:str|None, path:str|None, errno:int, persistent:bool}
     budget = 200000
@@ -216,6 +217,9 @@ def _op(name, mut, orig, paths, a, kw):
         raise
     if mut or S.full_trace:
         S.trace.append([S.n_all, S.n_mut if mut else 0, name, paths, "ok"])
+    if mut and S.crash_after is not None and S.n_mut == S.crash_after:
+        S.trace.append([S.n_all, S.n_mut, name, paths, "CRASH after"])
+        _die(137)
     if mut and S.interrupt is not None and S.interrupt[0] == S.n_mut and S.interrupt[1] == "after":
         S.trace.append([S.n_all, S.n_mut, name, paths, "SIGINT after"])
         S.interrupt = None
@@ -361,6 +365,7 @@ def arm(plan=None, trace_fd=None):
     S.n_all = S.n_mut = 0
     S.trace = []
     S.crash_at = plan.get("crash_at")
+    S.crash_after = plan.get("crash_after")
     S.interrupt = tuple(plan["interrupt"]) if plan.get("interrupt") else None
     S.faults = [dict(f) for f in plan.get("faults", ())]
     S.budget = plan.get("budget", 200000)
